@@ -47,9 +47,9 @@ func weights(over map[string]int) map[string]int {
 
 var profiles = map[string]*profile{
 	"elect": {name: "elect", minNodes: 2, maxNodes: 5, extras: 0, warmUpd: 3, steps: [2]int{10, 50}, gatedBias: 85, padMax: 8,
-		w: weights(map[string]int{"poke": 16, "elect": 14, "dlv": 14, "dlvto": 8, "dlvfrom": 6, "upd": 3, "snap": 0, "cfg": 1, "xfer": 2, "crash": 4, "restart": 6, "sever": 6, "isolate": 4, "adv": 6})},
+		tpl: map[string]int{"figure8": 30}, w: weights(map[string]int{"poke": 16, "elect": 14, "dlv": 14, "dlvto": 8, "dlvfrom": 6, "upd": 3, "snap": 0, "cfg": 1, "xfer": 2, "crash": 4, "restart": 6, "sever": 6, "isolate": 4, "adv": 6})},
 	"repl": {name: "repl", minNodes: 2, maxNodes: 5, extras: 1, warmUpd: 12, steps: [2]int{10, 50}, gatedBias: 75, padMax: 120,
-		tpl: map[string]int{"crashpoint": 10, "lagsnap": 10, "divergesnap": 15}, w: weights(map[string]int{"upd": 16, "dlvamong": 10, "elect": 8, "poke": 6, "crash": 4, "restart": 6, "snap": 2, "cfg": 2})},
+		tpl: map[string]int{"crashpoint": 10, "lagsnap": 10, "divergesnap": 15, "figure8": 30}, w: weights(map[string]int{"upd": 16, "dlvamong": 10, "elect": 8, "poke": 6, "crash": 4, "restart": 6, "snap": 2, "cfg": 2})},
 	"member": {name: "member", minNodes: 1, maxNodes: 4, extras: 3, warmUpd: 6, steps: [2]int{10, 50}, gatedBias: 50, padMax: 40,
 		tpl: map[string]int{"staletimeoutnow": 12}, w: weights(map[string]int{"cfg": 16, "upd": 8, "elect": 6, "poke": 6, "xfer": 2, "crash": 3, "restart": 5, "adv": 12})},
 	"snap": {name: "snap", minNodes: 1, maxNodes: 4, extras: 1, warmUpd: 40, steps: [2]int{10, 40}, gatedBias: 40, padMax: 200,
